@@ -70,11 +70,17 @@ ALL.update(TAILS)
 
 
 CFG = [{}]            # configuration of the agent the next deliver() builds (task_cfg switches it)
+PEER_OPEN = ['OPEN_OK']     # the OPEN the peer sends in establish()
+M = dict(M)
+M['OPEN_MANYCAPS'] = wire.open_msg(65002, 90, 0x0A000002, [wire.cap_mp(1, 1), wire.cap_mp(2, 1), wire.cap(wire.CAP_RR), wire.cap(wire.CAP_RR_OLD), wire.cap(70),
+                                                        wire.cap(6), wire.cap(67), wire.cap(200, b'\x01\x02'), wire.cap_gr(0x4078, [(1, 1, 0x80)]),
+                                                        wire.cap_addpath([(1, 1, 3)]), wire.cap_llgr([(1, 1, 0, 3600)])])
+M['OPEN_NOCAPS'] = wire.open_msg(65002, 90, 0x0A000002, [], as4=False)
 
 
 def establish(state='ESTABLISHED'):
     w = W.AgentWorld(CFG[0])
-    for ev in (('TICK', 0), ('CONN_OK', 0), ('RX', 0, M['OPEN_OK'])):
+    for ev in (('TICK', 0), ('CONN_OK', 0), ('RX', 0, M[PEER_OPEN[0]])):
         w.step(ev)
     if state == 'ESTABLISHED':
         w.step(('RX', 0, M['KA']))
@@ -380,10 +386,18 @@ def task_cfg(args):
     frames = dict(VALID)
     frames['RR128'] = wire.frame(wire.CISCO_RR, b'\x00\x01\x00\x01')
     del frames['UPD300']
+    # frames beyond the 4096-octet limit, complete: whatever capabilities the peer announced (extended message, code 6, is not
+    # something this agent ever agrees to), the limit stays
+    frames['UPD4443'] = wire.frame(wire.UPDATE, b'\x00' * (4443 - 19))
+    frames['UPD4097'] = wire.frame(wire.UPDATE, b'\x00' * (4097 - 19))
+    frames['NOTIF4097'] = wire.frame(wire.NOTIFICATION, b'\x06\x02' + b'\x00' * (4097 - 21))
     base = {}
     try:
-        for ci, cfg in enumerate([{}] + CAP_CFGS):
+        for ci, cfg in enumerate([{}] + CAP_CFGS + [{'peer_open': 'OPEN_MANYCAPS'}]      # (a peer without the 4-octet-AS capability changes what an UPDATE body means: not a framing matter)):
+            cfg = dict(cfg)
+            PEER_OPEN[0] = cfg.pop('peer_open', 'OPEN_OK')
             CFG[0] = cfg
+            cfg = dict(cfg, peer_open=PEER_OPEN[0])
             for name, f in sorted(frames.items()):
                 stream = f + wire.keepalive()
                 for cuts in ((), (19,), (len(f),)):
@@ -401,12 +415,13 @@ def task_cfg(args):
                     if ci == 0:
                         base[(name, cuts)] = obs
                     elif obs != base[(name, cuts)]:
-                        v.append(('C04|b|the reaction to a well-framed %s depends on the configured capabilities' % name,
+                        v.append(('C04|b|the reaction to the frame %s depends on the capabilities configured or announced by the peer' % name,
                                   {'cfg': cfg, 'frame': name, 'cuts': cuts, 'default': base[(name, cuts)], 'now': obs}))
                     classes.add(('cfg', ci, name, obs[1], obs[2]))
     finally:
         CFG[0] = {}
-    return v, nd, classes, len(frames) * (1 + len(CAP_CFGS))
+        PEER_OPEN[0] = 'OPEN_OK'
+    return v, nd, classes, len(frames) * (2 + len(CAP_CFGS))
 
 
 def run(tier, seed):
